@@ -402,6 +402,12 @@ def decorator_site(dtree, v):
               "func.__kwdefaults__ = getattr(self, 'kwonlydefaults', None)", "func.__annotations__ = getattr(self, 'annotations', None)",
               "func.__dict__ = getattr(self, 'dict', {})", "func.__module__ = getattr(self, 'module', callermodule)", "func.__dict__.update(kw)"]:
         if n not in up: raise Fail('FunctionMaker.update: `%s` not found' % n)
+    # metadata taken verbatim from the function: __doc__ (not inspect.getdoc, which re-indents), __module__
+    body_src = [ast.unparse(x) for x in iff[0].body]   # checked last: the sites above are already extracted
+    for want in ('self.doc = func.__doc__', 'self.module = func.__module__'):
+        if want not in body_src: raise Fail('FunctionMaker.__init__: `%s` not found' % want)
+    if "self.annotations = getattr(func, '__annotations__', {})" not in src: raise Fail('FunctionMaker.__init__: annotations copy')
+    if 'self.dict = func.__dict__.copy()' not in src: raise Fail('FunctionMaker.__init__: __dict__ copy')
 
 
 def generate(repo):
